@@ -1,7 +1,12 @@
 #!/bin/bash
 # matrix.sh [tier] [ids...] — runs, for every seeded change, the check of the property it breaks (and extra checks
 # listed in seeded/<id>/also_checks) against /repo with the change applied; records what was detected.
+# Works on an isolated copy: a git worktree of /verif's HEAD (MATRIX_VERIF) and a clone of /repo (MATRIX_REPO).
 TIER=${1:-quick}; shift
+V=${MATRIX_VERIF:-/root/matrix/verif}; R=${MATRIX_REPO:-/root/matrix/repo}
+if [ ! -d $V ]; then mkdir -p $(dirname $V); git -C /verif worktree add -q --detach $V HEAD || exit 2; fi
+if [ ! -d $R ]; then git clone -q /repo $R || exit 2; fi
+git -C $V checkout -q --detach $(git -C /verif rev-parse HEAD); git -C $R fetch -q origin; git -C $R checkout -q --detach $(git -C /repo rev-parse HEAD); git -C $R checkout -- .
 IDS=${@:-$(ls /verif/seeded | grep -v MATRIX)}
 OUT=/verif/seeded/MATRIX.$TIER.tsv
 for id in $IDS; do
@@ -10,11 +15,11 @@ for id in $IDS; do
   [ -z "$prop" ] && prop=$(cat $d/property 2>/dev/null)
   [ -z "$prop" ] && continue
   checks="$prop $(cat $d/also_checks 2>/dev/null)"
-  if ! git -C /repo apply --check $d/patch.diff 2>/dev/null; then echo -e "$id\t-\tDOES-NOT-APPLY" | tee -a $OUT; continue; fi
+  if ! git -C $R apply --check $d/patch.diff 2>/dev/null; then echo -e "$id\t-\tDOES-NOT-APPLY" | tee -a $OUT; continue; fi
   for c in $checks; do
-    git -C /repo apply $d/patch.diff
-    (cd /verif && VERIF_SEED=${VERIF_SEED:-1} timeout 3000 ./check $c $TIER > /tmp/matrix.$$.log 2>&1); rc=$?
-    git -C /repo checkout -- .
+    git -C $R apply $d/patch.diff
+    (cd $V && VERIF_REPO=$R VERIF_SEED=${VERIF_SEED:-1} timeout 3000 ./check $c $TIER > /tmp/matrix.$$.log 2>&1); rc=$?
+    git -C $R checkout -- .
     clause=$(grep -m1 "clause=" /tmp/matrix.$$.log | sed 's/^ *//')
     echo -e "$id\t$c\texit=$rc\t$clause" | tee -a $OUT
   done
